@@ -144,7 +144,7 @@ theorem C01_reads_identically (v : Ver) (T : OpTable) (F : FlagTable) (dec : Raw
 
 /-- **… lines included: CPython reads `from_code(c).to_code()` exactly as it reads `c`.**  With the hypotheses of
     `C01_all_but_linetable`, those of C02 about the line table (in-range rows, even address deltas) and jump targets, operands
-    that fit four code units, and — before 3.10 — a line on the additional line if there is one: `Spec.read` of the rebuilt
+    that fit four code units: `Spec.read` of the rebuilt
     code object *equals* `Spec.read` of the original, as lists: same instructions, same resolved operands, same line for
     every instruction (`None` where CPython has none), whatever bytes the line table is written in. -/
 theorem C01_reads_identically_full (v : Ver) (T : OpTable) (F : FlagTable) (dec : RawCode → R CodeData) (enc : CodeData → R RawCode)
@@ -171,11 +171,10 @@ theorem C01_reads_identically_full (v : Ver) (T : OpTable) (F : FlagTable) (dec 
     (hrne : Spec.read v T (.mk argc pos kw nl ss fl fln code lt fname name names varnames freevars cellvars consts) ≠ [])
     (hfit : ∀ args0 args fuel, relax v d.blocks.flatten (blockStarts d.blocks 0) fuel args0 = .ok args →
       ∀ p ∈ d.blocks.flatten.zip args, Encodable p.1 p.2)
-    (hal : v.is310 = false → ∀ a, d.addLine = some a → a.line.isSome)
     (henc : fromCodeDataGo v F enc d = .ok c') :
     Spec.read v T c' = Spec.read v T (.mk argc pos kw nl ss fl fln code lt fname name names varnames freevars cellvars consts) :=
   decoded_reads_identically_full v T F dec enc argc pos kw nl ss fl fln code lt fname name names varnames freevars cellvars consts d c'
-    hA h hlen hnodup hpos37 hcode hcomp hpre hmin hjs hcn hfn hvalid hteven htbytes htbc htbcOld hT hrne hfit hal henc
+    hA h hlen hnodup hpos37 hcode hcomp hpre hmin hjs hcn hfn hvalid hteven htbytes htbc htbcOld hT hrne hfit henc
 
 /-- non-vacuity: a 3.8 module body with a conditional forward jump and a backward jump
     (`LOAD_NAME x; POP_JUMP_IF_FALSE 8; LOAD_CONST; JUMP_ABSOLUTE 0; LOAD_CONST; RETURN_VALUE`) decodes into two blocks
